@@ -25,6 +25,31 @@ def run(rep, tier):
     common.guarded(rep, "C06.3", c06_3, rep, ix, G)
     common.guarded(rep, "C06.4", c11_5, rep, ix, R="C06.4")
     common.guarded(rep, "C06.5", c06_5, rep, ix, G)
+    common.guarded(rep, "C06.6", c06_6, rep, ix)
+
+
+def c06_6(rep, ix):
+    """the statement handler is replayed once per iteration: it must behave like a fresh visit each time"""
+    R = "C06.6"
+    rep.rule(R, "exitStatement keeps nothing between two executions: apart from the program being built it changes no attribute of the listener (no memo of expanded includes, "
+                "evaluated arguments or visited statements that a replay could pick up)", floor=1)
+    E = common.eff(rep)
+    f = ix.func(STMT)
+    bad = 0
+    for e in E.events.get(STMT, []):
+        outs = sorted(o for o in e.target.self_o if o.startswith(("FIELD:self.", "IN:FIELD:self.")) and not o.split("FIELD:self.")[1].startswith("_program"))
+        if outs:
+            bad += 1
+            rep.bad(R, ix.site(f, e.node), "`%s` changes only the program being built" % " ".join(u(e.node).split())[:70],
+                    "%s; it writes listener state (%s) that the next execution of the same statement - the next loop iteration - reads back" % (e.what, ", ".join(outs)), key="state|" + " ".join(u(e.node).split())[:60])
+    for n in walk_shallow(f.node):
+        if isinstance(n, (ast.Assign, ast.AugAssign)):
+            for t in (n.targets if isinstance(n, ast.Assign) else [n.target]):
+                if isinstance(t, ast.Attribute) and u(t.value) == "self":
+                    bad += 1
+                    rep.bad(R, ix.site(f, n), "`%s` does not rebind an attribute of the listener" % " ".join(u(n).split())[:70], key="attr|" + t.attr)
+    if not bad:
+        rep.ok(R, ix.site(f), "exitStatement mutates only objects reachable from self._program (%d mutation events inspected)" % len(E.events.get(STMT, [])))
 
 
 def const_bool(e):
@@ -208,6 +233,34 @@ def c06_3(rep, ix, G):
             why = "iterates `%s`" % u(g.iter)
     else:
         why = "arguments `%s`" % ", ".join(u(a) for a in c.args)
+    if not ok and len(c.args) == 1 and isinstance(c.args[0], ast.Starred) and isinstance(c.args[0].value, ast.Name):
+        # the bounds collected by an explicit loop: B = []; for c in <INT children>: [skip ':'] B.append(int(<text of c>))
+        bname = c.args[0].value.id
+        inits = [a for a in walk_shallow(fn) if isinstance(a, ast.Assign) and u(a.targets[0]) == bname]
+        loops_b = [l for l in walk_shallow(fn) if isinstance(l, ast.For) and any(isinstance(x, ast.Call) and u(x.func) == "%s.append" % bname for x in ast.walk(l))]
+        if len(inits) == 1 and isinstance(inits[0].value, ast.List) and not inits[0].value.elts and len(loops_b) == 1 and isinstance(loops_b[0].target, ast.Name):
+            lb = loops_b[0]
+            tv = lb.target.id
+            apps_b = [x for x in ast.walk(lb) if isinstance(x, ast.Call) and u(x.func) == "%s.append" % bname]
+            src = " ".join(u(lb.iter).split())
+            if len(apps_b) == 1 and len(apps_b[0].args) == 1:
+                arg = apps_b[0].args[0]
+                st_b = stmt_of(fn, apps_b[0])
+                elt_ok = isinstance(arg, ast.Call) and u(arg.func) == "int" and len(arg.args) == 1 and resolved_text(fn, arg.args[0], st_b) == "%s.getText()" % tv
+                if src == "ctx.rangeval().INT()":
+                    ok = elt_ok and st_b in lb.body
+                    why = "element `%s` over the INT children" % u(arg)
+                elif src == "ctx.rangeval().getChildren()":
+                    fake = ast.FunctionDef(name="_", args=ast.arguments(posonlyargs=[], args=[], kwonlyargs=[], kw_defaults=[], defaults=[]), body=lb.body, decorator_list=[])
+                    res = {}
+                    for sep in (True, False):
+                        def atom_b(node, sep=sep):
+                            if " ".join(u(node).split()) == "%s.getText()" % tv:
+                                return ":" if sep else "3"
+                            return AEval.NO
+                        res[sep] = Reach(fake, st_b, aliases=True).may_reach(atom_b)
+                    ok = elt_ok and res == {True: False, False: True}
+                    why = "element `%s`, appended for ':' children: %s" % (u(arg), res[True])
     if not ok and not why.startswith(("element", "iterates")):
         # explicit form range(a, b[, c]): every argument must be int(<text of the i-th INT child>), bound once and unconditionally
         good = 2 <= len(c.args) <= 3 and not c.keywords
